@@ -17,7 +17,7 @@ def check(tier, seed, replay=None):
         cases = [{"id": c["id"], "prog": c["prog"], "unrolled": c["unrolled"]}]
     else:
         cases = []
-        for fam in ("one", "enum", "graph"):
+        for fam in ("one", "enum", "graph", "prod", "logic", "sets"):
             cs, g, d = core.gen_cases(SPEC_DIR, "Expand.tla", f"Gen_{fam}.cfg", "exp" + fam, workers=4)
             for i, c in enumerate(cs):
                 c["id"] = f"{fam}_{i}"
@@ -47,8 +47,9 @@ def check(tier, seed, replay=None):
         "samples": samples,
         "evaluations": len(events),
         "distinct_nontrivial": sum(1 for s in v.stats if s[2] >= 2),
+        "compared_before_linearization": sum(1 for s in v.stats if len(s) > 4 and s[4] == 1),
         "rule": "one event = one program from spec/expand/Expand.tla (families one / enum / graph enumerated completely, three-row mixes by TLC simulation) and the text"
-                " the specification unrolls from it; both compiled by the real front end and linearizer and compared row for row; non-trivial = at least two rows after unrolling",
+                " the specification unrolls from it; both compiled by the real front end and linearizer and compared row for row, and their Models (before linearization) compared constraint by constraint on sample assignments under Sem!Eval; non-trivial = at least two rows after unrolling",
         "exhaustive": tier == "thorough" and not replay,
         "families": meta,
     }
